@@ -1,8 +1,8 @@
-STREAMS = ["c16"]
+STREAMS = ["c16", "c16pol"]
 RULE = ("all 128 combinations of the seven redirect switches x idle timeouts {-2^31, -1, 0, 1, 30, 2^31-1} (more in thorough) x "
         "four capability settings through a full exchange with the real Processor.Process, every request outcome (accepted, "
         "capability mismatch, rejected cookie, denied host, unreachable host, wrong phase) and mutated exchanges with random "
-        "policy; each response decoded by the extracted reference decoders. distinct = distinct (configuration, read list); "
+        "policy; each response decoded by the extracted reference decoders; and exchanges whose host policy is the real security.CheckHost / CheckSession(CheckHost) (4 selection modes x allowed / other host x token authentication on/off), whose refusals come with and without an error value. distinct = distinct (configuration, read list); "
         "non-trivial = at least one response")
 MODELLED = ("the five response builders, createPacket and makeRedirectFlags are transcribed (Model/Packets.v); the reference decoders "
             "(Spec/Wire.v) are written from the MS-TSGU field lists; main.go's mapping of configuration keys to RedirectFlags is "
